@@ -62,6 +62,34 @@ Definition read_total (evs : list (Z * bool * Z)) : Z :=
 Definition w0 (t0 : Z) : wstate := {| w_written := 0; w_last := t0 |}.
 Definition r0 (t0 : Z) : rstate := {| r_read := 0; r_lastread := 0; r_last := t0 |}.
 
+(* ---- one call, several response bodies ----
+   Client.roundTrip installs a function that wraps EVERY response body of the call in a NEW
+   callbackReader (fresh counters, lastTime := time.Now() at wrapping): the 3xx bodies net/http
+   drains before following a redirect, and the body that is finally saved.  The caller's callback is
+   only invoked once the call has a response (resp.Response != nil), i.e. for the last body.
+   A body = (clock value when it was wrapped, its Read events). *)
+Definition body_run : Type := Z * list (Z * bool * Z).
+
+Definition run_bodies (interval : Z) (bodies : list body_run) : list (list Z) :=
+  map (fun b => run_reader interval (r0 (fst b)) (snd b)) bodies.
+
+Definition call_reports (interval : Z) (bodies : list body_run) : list Z :=
+  last (run_bodies interval bodies) [].
+
+(* the alternative (refuted in Proofs/ProgressProofs.v): ONE callbackReader for the whole call whose
+   ReadCloser is swapped - the counters survive from one body to the next *)
+Fixpoint reader_end (interval : Z) (st : rstate) (evs : list (Z * bool * Z)) : rstate :=
+  match evs with
+  | [] => st
+  | e :: r => reader_end interval (fst (reader_step interval st e)) r
+  end.
+Fixpoint run_bodies_shared (interval : Z) (st : rstate) (bodies : list body_run) : list (list Z) :=
+  match bodies with
+  | [] => []
+  | b :: r => run_reader interval st (snd b) :: run_bodies_shared interval (reader_end interval st (snd b)) r
+  end.
+
+
 (* What any clock allows, given only the byte counts (used where the harness cannot observe the
    clock): the reports are a sub-sequence of the running totals.  [sums] lists the running totals
    after each event that moved bytes. *)
